@@ -24,8 +24,10 @@ def strForm (v s : Str) : Bool :=
   else if hasSuffix star v then hasPrefix v.dropLast s
   else s == v
 
-/-- The same forms for an attribute that is an HTTP header (`*` = the header is present);
-    `ic` = compare case-insensitively (hosts). -/
+/-- The same forms for the pseudo-headers `:authority` / `:method`, which every HTTP request carries
+    with a non-empty value (`*` = present); `ic` = compare case-insensitively (hosts).  For
+    `request.headers[..]` the value `*` means present AND non-empty (`specAtom`), as the API
+    documents ("`*` will match when value is not empty"). -/
 def hdrForm (ic : Bool) (v s : Str) : Bool :=
   if v = star then true
   else if hasPrefix star v then
@@ -83,7 +85,7 @@ def specAtom (g : Gen) (key v : Str) (req : Request) : Bool :=
   | .requestHeader =>
     req.http.any fun h =>
       match extractNameInBrackets (trimPrefix attrRequestHeader key) with
-      | some name => (lookupHeader name h).any (hdrForm false v ·)
+      | some name => (lookupHeader name h).any fun x => if v = star then !x.isEmpty else hdrForm false v x
       | none => false
   | .requestPrincipal =>
     match claim req ["iss".toList], claim req ["sub".toList] with
@@ -177,6 +179,106 @@ def expandRule (b : List Str) (r : Rule) : Rule :=
 
 def expandPolicy (b : List Str) (p : Policy) : Policy := { p with rules := p.rules.map (expandRule b) }
 
+/-! ## Rules that cannot be expressed (clause 2 of the statement)
+
+A field cannot be expressed on a filter chain when its attribute is HTTP-only and the chain is TCP,
+or when its map-style key cannot be read (`request.headers.x[y]`); a value cannot be expressed when
+it does not parse (CIDR, port).  An ALLOW rule with such a field or value matches nothing; a rule of
+any other action (DENY, AUDIT, CUSTOM) is enforced on its remaining conditions. -/
+
+/-- Attributes that exist only for HTTP requests. -/
+def Gen.httpOnly : Gen → Bool
+  | .host | .method | .path | .requestHeader | .requestPrincipal | .requestAudiences
+  | .requestPresenter | .requestClaim => true
+  | _ => false
+
+/-- The bracketed part of a map-style key can be read. -/
+def keyReadable (g : Gen) (key : Str) : Bool :=
+  match g with
+  | .requestHeader => (extractNameInBrackets (trimPrefix attrRequestHeader key)).isSome
+  | .requestClaim => (extractNameInNestedBrackets (trimPrefix attrRequestClaims key)).isSome
+  | .envoyFilter => (envoyFilterKey key).isSome
+  | _ => true
+
+def attrExpressible (tcp : Bool) (g : Gen) (key : Str) : Bool := !(tcp && g.httpOnly) && keyReadable g key
+
+def valueParses (g : Gen) (v : Str) : Bool :=
+  match g with
+  | .destIP | .srcIP | .remoteIP => (parseCidr v).isSome
+  | .destPort => (parsePort v).isSome
+  | _ => true
+
+/-- The field is absent, or its attribute and all its values can be expressed. -/
+def fieldExpressible (tcp : Bool) (g : Gen) (key : Str) (vs nvs : List Str) : Bool :=
+  (vs.isEmpty && nvs.isEmpty) ||
+  (attrExpressible tcp g key && vs.all (valueParses g) && nvs.all (valueParses g))
+
+/-- The values of a field that remain: none if the attribute cannot be expressed, else the parsing ones. -/
+def remaining (tcp : Bool) (g : Gen) (key : Str) (vs : List Str) : List Str :=
+  if attrExpressible tcp g key then vs.filter (valueParses g) else []
+
+def srcExpressible (tcp : Bool) (pns : Str) (s : Source) : Bool :=
+  fieldExpressible tcp .srcPrincipal attrSrcPrincipal s.principals s.notPrincipals &&
+  fieldExpressible tcp .requestPrincipal attrRequestPrincipal s.requestPrincipals s.notRequestPrincipals &&
+  fieldExpressible tcp (.srcServiceAccount pns) attrSrcServiceAccount s.serviceAccounts s.notServiceAccounts &&
+  fieldExpressible tcp .srcTrustDomain attrSrcTrustDomain s.trustDomains s.notTrustDomains &&
+  fieldExpressible tcp .srcNamespace attrSrcNamespace s.namespaces s.notNamespaces &&
+  fieldExpressible tcp .remoteIP attrRemoteIP s.remoteIpBlocks s.notRemoteIpBlocks &&
+  fieldExpressible tcp .srcIP attrSrcIP s.ipBlocks s.notIpBlocks
+
+def opExpressible (tcp : Bool) (o : Operation) : Bool :=
+  fieldExpressible tcp .host hostHeader o.hosts o.notHosts &&
+  fieldExpressible tcp .method methodHeader o.methods o.notMethods &&
+  fieldExpressible tcp .path pathMatcherKey o.paths o.notPaths &&
+  fieldExpressible tcp .destPort attrDestPort o.ports o.notPorts
+
+def whenExpressible (tcp : Bool) (pns : Str) (c : Condition) : Bool :=
+  match classify pns c.key with
+  | some g => fieldExpressible tcp g c.key c.values c.notValues
+  | none => true     -- a condition on an unknown attribute never holds anyway
+
+def ruleExpressible (tcp : Bool) (pns : Str) (r : Rule) : Bool :=
+  r.froms.all (srcExpressible tcp pns) && r.tos.all (opExpressible tcp) && r.whens.all (whenExpressible tcp pns)
+
+def remainingSource (tcp : Bool) (pns : Str) (s : Source) : Source :=
+  { principals := remaining tcp .srcPrincipal attrSrcPrincipal s.principals,
+    notPrincipals := remaining tcp .srcPrincipal attrSrcPrincipal s.notPrincipals,
+    requestPrincipals := remaining tcp .requestPrincipal attrRequestPrincipal s.requestPrincipals,
+    notRequestPrincipals := remaining tcp .requestPrincipal attrRequestPrincipal s.notRequestPrincipals,
+    namespaces := remaining tcp .srcNamespace attrSrcNamespace s.namespaces,
+    notNamespaces := remaining tcp .srcNamespace attrSrcNamespace s.notNamespaces,
+    ipBlocks := remaining tcp .srcIP attrSrcIP s.ipBlocks,
+    notIpBlocks := remaining tcp .srcIP attrSrcIP s.notIpBlocks,
+    remoteIpBlocks := remaining tcp .remoteIP attrRemoteIP s.remoteIpBlocks,
+    notRemoteIpBlocks := remaining tcp .remoteIP attrRemoteIP s.notRemoteIpBlocks,
+    serviceAccounts := remaining tcp (.srcServiceAccount pns) attrSrcServiceAccount s.serviceAccounts,
+    notServiceAccounts := remaining tcp (.srcServiceAccount pns) attrSrcServiceAccount s.notServiceAccounts,
+    trustDomains := remaining tcp .srcTrustDomain attrSrcTrustDomain s.trustDomains,
+    notTrustDomains := remaining tcp .srcTrustDomain attrSrcTrustDomain s.notTrustDomains }
+
+def remainingOp (tcp : Bool) (o : Operation) : Operation :=
+  { hosts := remaining tcp .host hostHeader o.hosts, notHosts := remaining tcp .host hostHeader o.notHosts,
+    ports := remaining tcp .destPort attrDestPort o.ports, notPorts := remaining tcp .destPort attrDestPort o.notPorts,
+    methods := remaining tcp .method methodHeader o.methods, notMethods := remaining tcp .method methodHeader o.notMethods,
+    paths := remaining tcp .path pathMatcherKey o.paths, notPaths := remaining tcp .path pathMatcherKey o.notPaths }
+
+def remainingCondition (tcp : Bool) (pns : Str) (c : Condition) : Condition :=
+  match classify pns c.key with
+  | some g => { c with values := remaining tcp g c.key c.values, notValues := remaining tcp g c.key c.notValues }
+  | none => c
+
+/-- The rule with only the conditions that can be expressed. -/
+def remainingRule (tcp : Bool) (pns : Str) (r : Rule) : Rule :=
+  { froms := r.froms.map (remainingSource tcp pns), tos := r.tos.map (remainingOp tcp),
+    whens := r.whens.map (remainingCondition tcp pns) }
+
+/-- Clause 2 as a reading of a policy on a chain: an ALLOW policy keeps only its expressible rules
+    (the others match nothing); a policy of any other action keeps every rule, reduced to its
+    remaining conditions. -/
+def clause2 (tcp : Bool) (p : Policy) : Policy :=
+  if p.action == .allow then { p with rules := p.rules.filter (ruleExpressible tcp p.ns) }
+  else { p with rules := p.rules.map (remainingRule tcp p.ns) }
+
 /-- A policy applies to a workload iff it lives in the root namespace or in the workload's
     namespace and its selector (if any) is a subset of the workload's labels. -/
 def applies (w : Workload) (p : Policy) : Bool :=
@@ -211,6 +313,11 @@ def customDenies (c : CustomOpts) (ps : List Policy) (req : Request) : Bool :=
 def specDecisionAll (w : Workload) (bundle : List Str) (c : CustomOpts) (ps : List Policy) (req : Request) : Bool :=
   !(customDenies c ((ps.filter (applies w)).map (expandPolicy bundle)) req) &&
   decision ((ps.filter (applies w)).map (expandPolicy bundle)) req
+
+/-- **The statement**: decision for a request on a chain of the given kind (`tcp`), clause 2 included. -/
+def specDecisionOn (w : Workload) (bundle : List Str) (c : CustomOpts) (tcp : Bool) (ps : List Policy)
+    (req : Request) : Bool :=
+  specDecisionAll w bundle c (ps.map (clause2 tcp)) req
 
 /-- The decision the policy semantics define for a request to workload `w` in a mesh with the
     trust domain bundle `bundle`. -/
